@@ -164,6 +164,13 @@ func (m *SynchronizedMemory) Map(driver core1_0.DeviceDriver, references int, of
 		return m.mapData, core1_0.VKSuccess, nil
 	}
 
+	if m.mapData != nil {
+		// The hysteresis dropped its extra mapping while nobody had the memory mapped, which leaves the memory
+		// object mapped in the driver: reuse that mapping, mapping it again would be invalid
+		m.mapReferences = references
+		return m.mapData, core1_0.VKSuccess, nil
+	}
+
 	mappedData, result, err := driver.MapMemory(m.memory, offset, size, flags)
 	if err != nil {
 		return nil, result, err
